@@ -3,7 +3,8 @@ import logging
 
 from .abstractions import AbstractJSONWizard
 from .bases_meta import BaseJSONWizardMeta, LoadMeta, DumpMeta
-from .class_helper import call_meta_initializer_if_needed
+from .class_helper import (call_meta_initializer_if_needed,
+                           CLASS_TO_LOAD_FUNC, CLASS_TO_DUMP_FUNC)
 from .dumpers import asdict
 from .loader_selection import fromdict, fromlist
 from .type_def import dataclass_transform
@@ -64,6 +65,24 @@ class JSONSerializable(AbstractJSONWizard):
                           _key_transform=None):
 
         super().__init_subclass__()
+
+        # The first `from_dict` / `to_dict` call on a dataclass replaces these
+        # attributes *on the class* with the functions generated for it. So
+        # give each subclass its own (generic) attributes: otherwise it would
+        # inherit the functions generated for a base class that is used
+        # before or after the subclass is defined, and then load as the base
+        # class, and only dump the fields of the base class.
+        bases = cls.__mro__[1:]
+        if 'from_dict' not in cls.__dict__:
+            inherited = cls.from_dict
+            if (getattr(inherited, '__func__', None) is fromdict
+                    or any(inherited is CLASS_TO_LOAD_FUNC.get(b) for b in bases)):
+                cls.from_dict = classmethod(fromdict)
+        if 'to_dict' not in cls.__dict__:
+            inherited = cls.to_dict
+            if (inherited is asdict
+                    or any(inherited is CLASS_TO_DUMP_FUNC.get(b) for b in bases)):
+                cls.to_dict = asdict
 
         load_meta_kwargs = {}
 
